@@ -5,10 +5,12 @@ import (
 	"net"
 	"os"
 	"path/filepath"
+	"sync"
 	"sync/atomic"
 	"time"
 
 	"github.com/semafind/semadb/cluster"
+	"github.com/semafind/semadb/cluster/mrpc"
 	"github.com/semafind/semadb/models"
 )
 
@@ -85,6 +87,7 @@ func NewClusterNode(root string, me NodeSpec, servers []string, o ClusterOpts, s
 		return nil, err
 	}
 	if serve {
+		trackServerConns()
 		if err := c.Serve(); err != nil {
 			return nil, err
 		}
@@ -124,4 +127,43 @@ func UserPlan(maxCollections int, maxPoints int64, maxPointSize int) models.User
 func LoopbackHost(k int) string {
 	pid := os.Getpid()
 	return fmt.Sprintf("127.%d.%d.%d", 1+pid%250, 1+(pid/250)%250, k)
+}
+
+// ---------------------------------------------------------------------------
+// in-process node restarts: a real node stops by process exit, which drops every
+// connection its RPC server had taken over. net/http's Shutdown leaves hijacked
+// connections alone, so the harness records them (hook mrpc.VerifConnFn) and
+// closes them when it stops a node.
+
+var (
+	serverConnMu sync.Mutex
+	serverConns  = map[string][]net.Conn{}
+	connHookOnce sync.Once
+)
+
+func trackServerConns() {
+	connHookOnce.Do(func() {
+		fn := func(addr string, c net.Conn) {
+			serverConnMu.Lock()
+			serverConns[addr] = append(serverConns[addr], c)
+			serverConnMu.Unlock()
+		}
+		mrpc.VerifConnFn.Store(&fn)
+	})
+}
+
+// StopClusterNode stops a node the way a process exit would: loaded shards are
+// closed, the node is closed and every connection its RPC server had accepted
+// is dropped.
+func StopClusterNode(c *cluster.ClusterNode, me NodeSpec) error {
+	c.VerifShardManager().VerifUnloadAll()
+	err := c.Close()
+	serverConnMu.Lock()
+	conns := serverConns[me.Name()]
+	delete(serverConns, me.Name())
+	serverConnMu.Unlock()
+	for _, cn := range conns {
+		cn.Close()
+	}
+	return err
 }
